@@ -27,11 +27,11 @@ Lemma run_body_spec sw b : run_body sw b = spec_body b.
 Proof. apply run_stmts_spec. Qed.
 
 Lemma stmt_calls_no_terminal i s : terminals (stmt_calls i s) = [].
-Proof. unfold stmt_calls. destruct (s_op s), (s_fault s) as [| |[]]; reflexivity. Qed.
+Proof. unfold stmt_calls. destruct (s_op s), (s_fault s) as [| |[]|k]; reflexivity. Qed.
 
 Lemma stmt_calls_no_begin i s ok : ~ In (Begin ok) (stmt_calls i s).
 Proof.
-  unfold stmt_calls. destruct (s_op s), (s_fault s) as [| |[]]; simpl; intuition discriminate.
+  unfold stmt_calls. destruct (s_op s), (s_fault s) as [| |[]|k]; simpl; intuition discriminate.
 Qed.
 
 Lemma spec_stmts_no_terminal : forall ss i fin, terminals (snd (spec_stmts i ss fin)) = [].
@@ -61,7 +61,7 @@ Proof. induction n; simpl; auto. Qed.
 
 Lemma begin_calls_no_terminal f : terminals (fst (begin_calls f)) = [].
 Proof.
-  unfold begin_calls. destruct (x_begin f) as [| |[]]; try reflexivity.
+  unfold begin_calls. destruct (x_begin f) as [| |[]|k]; try reflexivity.
   destruct (Nat.ltb (n_begin f) 3); cbn [fst]; [rewrite terminals_app|]; rewrite terminals_repeat_begin; reflexivity.
 Qed.
 
@@ -72,7 +72,7 @@ Proof. induction n; simpl; auto. Qed.
 Lemma begin_calls_ok f : f_begin f = false ->
   exists n, n <= 2 /\ fst (begin_calls f) = repeat (Begin false) n ++ [Begin true].
 Proof.
-  unfold f_begin, begin_calls. destruct (x_begin f) as [| |[]]; simpl; try discriminate.
+  unfold f_begin, begin_calls. destruct (x_begin f) as [| |[]|k]; simpl; try discriminate.
   - intros _. exists 0. split; [lia|reflexivity].
   - destruct (Nat.ltb_spec (n_begin f) 3); simpl; [|discriminate]. intros _. exists (n_begin f). split; [lia|reflexivity].
 Qed.
@@ -81,7 +81,7 @@ Qed.
 Lemma begin_calls_fail f : f_begin f = true ->
   exists n, (n = 1 \/ n = 3) /\ fst (begin_calls f) = repeat (Begin false) n.
 Proof.
-  unfold f_begin, begin_calls. destruct (x_begin f) as [| |[]]; simpl; try discriminate;
+  unfold f_begin, begin_calls. destruct (x_begin f) as [| |[]|k]; simpl; try discriminate;
     try (intros _; exists 1; split; [auto|reflexivity]).
   destruct (Nat.ltb (n_begin f) 3); simpl; [discriminate|]. intros _. exists 3. split; [auto|reflexivity].
 Qed.
@@ -895,4 +895,34 @@ Proof.
   intros Hat Hnc Hl Hd Hn H.
   apply (by_pos_filled (unwrap_fields fs) 0 row (alloc_dest (unwrap_fields fs) d0) d); [|lia|exact Hn].
   eapply by_position_refines; try eassumption. lia.
+Qed.
+
+(* ---- the context handed to TransactCtx ---- *)
+Definition ctx_harmless (cx : ctxstate) (bound : bool) : Prop :=
+  bound = false \/ cx = CLive \/ exists k, cx = CDoneAfterBody k.
+
+Lemma body_under_ctx_id cx bound b : ctx_harmless cx bound -> body_under_ctx cx bound b = b.
+Proof.
+  intro H. unfold body_under_ctx. destruct b as [ss fin]. simpl. f_equal.
+  assert (Hs : forall s, stmt_under_ctx cx bound s = s).
+  { intro s. unfold stmt_under_ctx. destruct H as [->|[->|[k ->]]]; [destruct cx|..]; reflexivity. }
+  induction ss as [|s ss IH]; simpl; [reflexivity|]. rewrite Hs, IH. reflexivity.
+Qed.
+
+Lemma ctx_end_keeps_outcome sw adm cx bound f b : ctx_harmless cx bound ->
+  transact_ctx_with sw adm cx bound f b = transact_ctx sw adm f b /\
+  cached_transact_ctx_with sw adm cx bound f b = transact_ctx sw adm f b.
+Proof.
+  intro H. unfold transact_ctx_with, cached_transact_ctx_with, cached_transact_ctx. rewrite (body_under_ctx_id _ _ _ H). split; reflexivity.
+Qed.
+
+Lemma ctx_done_body_nil_commits sw cx bound f b : ctx_harmless cx bound ->
+  f_begin f = false -> fst (run_body sw b) = ONil ->
+  fst (transact_ctx_with sw true cx bound f b) = (if f_commit f then Some (e_commit f) else None) /\
+  terminals (snd (transact_ctx_with sw true cx bound f b)) = [Commit (negb (f_commit f))].
+Proof.
+  intros H Hb Ho. destruct (ctx_end_keeps_outcome sw true cx bound f b H) as [E _]. rewrite E.
+  unfold transact_ctx. pose proof (transact_ends sw f b Hb) as He.
+  pose proof (ends_with_terminals _ _ He (terminal_of_is_terminal _ _)) as Ht.
+  rewrite (transact_table sw f b Hb) in *. rewrite Ho in *. simpl in *. split; [reflexivity|exact Ht].
 Qed.
